@@ -59,6 +59,10 @@ mod handler;
 #[cfg(feature = "runtime")]
 pub mod runtime;
 
+#[cfg(feature = "verif-hooks")]
+#[doc(hidden)]
+pub mod verif_hooks;
+
 #[cfg(all(feature = "async_runtime", feature = "tokio_runtime"))]
 compile_error!("only one runtime featured allowed");
 
